@@ -418,6 +418,19 @@ class Evaluator:
                 finally:
                     self.env.pop("__recv__", None)
             raise Unsupported(e)
+        if isinstance(e, ast.Call) and isinstance(e.func, ast.Name) and e.func.id in ("hasattr", "getattr") and e.func.id not in self.env and 2 <= len(e.args) <= 3 and not e.keywords:
+            # hasattr / getattr on a model object with a literal name: decided on the object's data attributes (a model object lists
+            # every attribute the scenario gives it; methods and class constants are not asked for this way in the analysed code)
+            o_ = self.ev(e.args[0])
+            nm_ = self.ev(e.args[1])
+            if isinstance(o_, Obj) and isinstance(nm_, str) and set(o_.__dict__) != {"_cls"}:
+                if e.func.id == "hasattr":
+                    return nm_ in o_.__dict__
+                if nm_ in o_.__dict__:
+                    return o_.__dict__[nm_]
+                if len(e.args) == 3:
+                    return self.ev(e.args[2])
+                raise ModelRaise(Outcome("raise", "AttributeError", e))
         if isinstance(e, ast.Call) and isinstance(e.func, ast.Name) and e.func.id in ("bytes", "str") and e.func.id not in self.env and 1 <= len(e.args) <= 2 \
                 and (len(e.args) == 2 or [k.arg for k in e.keywords] == ["encoding"]) and all(k.arg in ("encoding", "errors") for k in e.keywords):
             # bytes(text, encoding) / str(data, encoding)
